@@ -60,7 +60,24 @@ def main():
     else:
         build_lean(["driver"])
     if harness_stage(rep):
-        runners[prop](rep, a.tier, a.seed)
+        # a wall-clock budget far above what the check needs on a tree that works (quick: under a minute; thorough: under a
+        # quarter of an hour): on a tree where everything hangs until its time-out the check says what it has and ends
+        import signal
+        budget = int(os.environ.get("VERIF_BUDGET_S", "900" if a.tier == "quick" else "5400"))
+
+        def on_alarm(signum, frame):
+            raise StopCheck("budget")
+        signal.signal(signal.SIGALRM, on_alarm)
+        signal.alarm(budget)
+        try:
+            runners[prop](rep, a.tier, a.seed)
+            signal.alarm(0)
+        except StopCheck as e:
+            signal.alarm(0)
+            rep.cov["ended_early"] = "budget" if e.args else "enough violations reported"
+            if e.args and not rep.violations:
+                rep.violation("oracle", dict(what=f"the check did not come to its end within {budget} s (on the tree it was written for it takes a small fraction of that): "
+                                                  "the code under test hangs or has become much slower; nothing else had been found by then"), no_input=True)
     return rep.finish(proof)
 
 
